@@ -7,6 +7,7 @@ From SP Require Import BaseX Encodings Armor ArmorProofs ArmoredForms.
 From SP Require Import GoLang GoLang2 GoAst GoAstProofs GoAstProofs2 GoAstProofs3.
 From SP Require Import GoAstRecv.
 From SP Require Import GoAstSend GoAstProofs5a.
+From SP Require GoAstOpen GoAstProofs4a GoAstProofs4b GoAstProofs7c.
 From Coq Require String.
 Import String.StringSyntax.
 Import ListNotations.
@@ -237,6 +238,190 @@ Theorem C01_source_encryptStream_init (c : crypto) (enc_step : gval -> bytes -> 
 Proof. exact (go_encryptStream_init c enc_step st v sender rcpts ra rb rc). Qed.
 
 
+(* ---- source ties: the sender's MAC keys and the entry-point glue of the encryption RECEIVER (/repo/encrypt.go,
+        decrypt.go, common.go), lemmas of proofs/GoAstProofs7c.v ---- *)
+(* The terms f_saltpack_computeMACKeySender, computeMACKeysSender, readEncryptionBlock, decryptStream_readHeader,
+   NewDecryptStream and Open are generated on every run from the Go syntax trees of /repo (gen/GoAstOpen.v) and run by
+   the evaluator of model/GoLang2.v (run_func2: outcome AND final environment) on ENCODED arguments.  Key objects as
+   above (g_sk, g_rcpt); a msgpack stream is [g_mps_raw input s]: the input BYTES not yet consumed and Go's packet
+   counter s; a reader that cannot fail (a *bytes.Buffer, bytes.NewReader) is the bytes it holds (rdr_bytes r = Some
+   input says which bytes r holds, it does not restrict them); the version validator VV and the keyring RING are
+   opaque values whose meaning is in the externs (vd, kr).  The receiver object is the struct literal NewDecryptStream
+   builds, [g_ds_new VV RING mps], and after the header [g_ds_done ...]; newChunkReader(x) is [g_cr_new x]; the
+   MessageKeyInfo is [g_mki m k], k being the receiver key OBJECT processHeader found (dec_header_key), whose public
+   half is the model's mki_receiver.  msgpackStream.Read(&x) = ext_read ty: the model's parser on the remaining input,
+   then go-codec's decoding at the STATIC type ty of x (for the block readers the type the version selects:
+   enc_target v), returning (seqno, err), then the advanced stream and the decoded value.  Calls of saltpack
+   functions have the MODEL's meaning (decryptStream.processHeader = process_enc_header, tied by
+   C01_source_processHeader; NewDecryptStream inside Open = the model's open_stream, the stream it returns being the
+   model's loop), and the compose_ theorems show those meanings ARE the outcomes of the translated callees.  An extern
+   has NO value where the model says Unmodelled or where the callee panics: the evaluator is then stuck at that call
+   (OStuck "call") and the statements say exactly when.  dec_read_header is the header stage of the model's
+   open_stream; nds_outcome / open_outcome are what NewDecryptStream / Open return, as Go values; open_class reads
+   such an outcome back as a result of the model (all in GoAstProofs7c.v).  On an error NewDecryptStream and Open still
+   return &ds.mki as processHeader left it: the model does not describe that value, so it is a parameter pm (input ->
+   value) of the externs and the theorems hold for EVERY pm.
+   LIMITS: a reader failing in mid-packet is not modelled; `&ds.mki` and newChunkReader(ds) are VALUE copies in the
+   evaluator (the aliasing between the returned MessageKeyInfo / reader and the stream object is not represented);
+   "reading the returned chunk reader to the end yields the model's loop" is the meaning of an extern inside Open,
+   its pieces being C13_source_chunkReader_Read and the getNextChunk tie of the decrypt stream. *)
+Section C01_source_entry.
+Import GoAstOpen GoAstProofs4a GoAstProofs4b GoAstProofs7c.
+Local Open Scope string_scope.
+
+(* computeMACKeySender(version, index, secret, eSecret, public, headerHash) returns the model's mac_key_sender when the
+   version is Version1() or Version2() (the WHOLE version is compared: the code switches on it since it is writing)
+   and panics for every other version.  No hypothesis. *)
+Theorem C01_source_computeMACKeySender (c : crypto) (v : version) (i : N) (ssk esk : bytes) (pk : rcpt) (hh : bytes) :
+  fst (run_func2 (ext_mks1 c) f_saltpack_computeMACKeySender
+                 [g_version v; VInt (Z.of_N i); g_sk ssk; g_sk esk; g_rcpt pk; VBytes hh])
+  = if known_version v then ORet [VBytes (mac_key_sender c v i ssk esk (fst pk) hh)] else OPanic.
+Proof. exact (go_computeMACKeySender c v i ssk esk pk hh). Qed.
+
+(* computeMACKeysSender(version, sender, ephemeralKey, receivers, headerHash) returns mac_key_sender over the
+   receivers in order with their indices (sender_mac_keys; nil for no receiver); for an unknown version and at least
+   one receiver the callee computeMACKeySender panics (stuck "call").  Hypothesis: at most 2^64 receivers (the index
+   is converted to uint64; Go slices are shorter). *)
+Theorem C01_source_computeMACKeysSender (c : crypto) (v : version) (ssk esk : bytes) (rs : list rcpt) (hh : bytes) :
+  (N.of_nat (List.length rs) <= 18446744073709551616)%N ->
+  fst (run_func2 (ext_mks2 c) f_saltpack_computeMACKeysSender
+                 [g_version v; g_sk ssk; g_sk esk; VList (map g_rcpt rs); VBytes hh])
+  = if (known_version v || (match rs with [] => true | _ => false end))%bool
+    then ORet [g_mks (sender_mac_keys c v ssk esk hh rs)]
+    else OStuck "call".
+Proof. exact (go_computeMACKeysSender c v ssk esk rs hh). Qed.
+
+(* this is exactly the meaning ext_init (C01_source_encryptStream_init) gives to the call: that meaning IS the outcome
+   of the translated function, for every encoder step function es.  Hypothesis: at most 2^64 receivers. *)
+Theorem C01_source_compose_computeMACKeysSender (c : crypto) (es : gval -> bytes -> gval * gerr) (v : version)
+        (ssk esk : bytes) (rs : list rcpt) (hh : bytes) :
+  (N.of_nat (List.length rs) <= 18446744073709551616)%N ->
+  fst (run_func2 (ext_mks2 c) f_saltpack_computeMACKeysSender [g_version v; g_sk ssk; g_sk esk; VList (map g_rcpt rs); VBytes hh])
+  = match ext_init c es "computeMACKeysSender" [g_version v; g_sk ssk; g_sk esk; VList (map g_rcpt rs); VBytes hh] with
+    | Some rsl => ORet rsl
+    | None => OStuck "call"
+    end.
+Proof. exact (compose_computeMACKeysSender c es v ssk esk rs hh). Qed.
+
+(* the struct decoders of ext_read are the model's view: view_enc_block of a packet is go-codec's decoding into
+   encryptionBlockV1 [authenticators, ciphertext] (isFinal computed from the ciphertext being 16 bytes long, as the
+   code does) or encryptionBlockV2 [final, authenticators, ciphertext], followed by what the Go code computes from the
+   fields.  No hypothesis. *)
+Theorem C01_source_view_enc_block_struct (v : version) (m : mval) :
+  view_enc_block v m =
+  if (vmaj v =? 1)%Z
+  then dbind (view_ebV1 m) (fun x => DOk (fst x, snd x, Nat.eqb (List.length (snd x)) 16))
+  else dbind (view_ebV2 m) (fun x => DOk (snd (fst x), snd x, fst (fst x))).
+Proof. exact (view_enc_block_struct v m). Qed.
+
+(* readEncryptionBlock(version, mps): for major version 1 or 2 (ver12) the five results are the model's view_enc_block
+   of the next packet (ciphertext, authenticators, isFinal) with the packet's seqno and nil, the stream advanced
+   (blk_spec, case RdOk); or (nil, nil, false, 0, err) with the stream unchanged (RdErr); stuck where the model says
+   Unmodelled (RdNone); for any other major version the function panics.  No hypothesis (any start counter). *)
+Theorem C01_source_readEncryptionBlock (v : version) (input : bytes) (s : Z) :
+  let r := run_func2 (ext_read (enc_target v)) f_saltpack_readEncryptionBlock [g_version v; g_mps_raw input s] in
+  if ver12 v
+  then blk_spec (fun x : list bytes * bytes * bool => [VBytes (snd (fst x)); VList (map VBytes (fst (fst x))); VBool (snd x)])
+                input s (mps_read (view_enc_block v) (g_mps_raw input s)) r
+  else r = (OPanic, []).
+Proof. exact (go_readEncryptionBlock v input s). Qed.
+
+(* this is exactly the meaning GoAstProofs4b.ext_chunk gives to the call inside the decrypt stream's getNextChunk:
+   the five results and the stream written back are those of the translated function; no value exactly where the
+   callee is stuck ("call") or panics (another major version).  No hypothesis. *)
+Theorem C01_source_compose_readEncryptionBlock (c : crypto) (ty : read_target) (v : version) (input : bytes) (s : Z) :
+  let r := run_func2 (ext_read (enc_target v)) f_saltpack_readEncryptionBlock [g_version v; g_mps_raw input s] in
+  match ext_chunk c ty "readEncryptionBlock" [g_version v; g_mps_raw input s] with
+  | Some rs => fst r = ORet (firstn 5 rs) /\ lookup "mps" (snd r) = nth_error rs 6
+  | None => if ver12 v then fst r = OStuck "call" else r = (OPanic, [])
+  end.
+Proof. exact (compose_readEncryptionBlock c ty v input s). Qed.
+
+(* dec_read_header (read the header packet, hash it, decode it, process_enc_header) IS the header stage of the model's
+   open_stream: open_stream is that stage followed by the model's decrypt loop on the rest.  No hypothesis. *)
+Theorem C01_source_open_stream_header (c : crypto) (vd : validator) (kr : keyring) (input : bytes) :
+  open_stream c vd kr input =
+  bind (dec_read_header c vd kr input) (fun x =>
+  Ok (fst (fst x), decrypt_loop c (S (List.length (snd x))) (snd (fst x)) 0 (snd x) [])).
+Proof. exact (open_stream_header c vd kr input). Qed.
+
+(* ds.readHeader(nil) on the object NewDecryptStream builds returns the Go value of the error of dec_read_header, and
+   on success nil, leaving g_ds_done: the stream advanced by one packet, the header hash sha512(header bytes),
+   version, payload key, MAC key, position and the MessageKeyInfo of the model, the receiver key object being the key
+   processHeader found (dec_header_key), whose public half is the model's mki_receiver.  Stuck "call" where the model
+   says Unmodelled or a panic.  No hypothesis. *)
+Theorem C01_source_decryptStream_readHeader (c : crypto) (vd : validator) (kr : keyring) (VV RING : gval) (input : bytes) (s : Z) :
+  let r := run_func2 (ext_dhdr c vd kr) f_saltpack_decryptStream_readHeader [g_ds_new VV RING (g_mps_raw input s); VNil] in
+  match dec_read_header c vd kr input with
+  | Ok (m, st, rest) =>
+    fst r = ORet [VNil] /\
+    exists k, dec_header_key c kr input = Some k /\ snd k = mki_receiver m /\
+      lookup "ds" (snd r) = Some (g_ds_done VV RING (g_mps_raw rest ((s + 1) mod two64)) VNil m st k)
+  | Err e => match g_herr e with Some ev => fst r = ORet [ev] | None => fst r = OStuck "call" end
+  end.
+Proof. exact (go_decryptStream_readHeader c vd kr VV RING input s). Qed.
+
+(* the meaning ext_nds (NewDecryptStream) gives to the call ds.readHeader, on the object the constructor builds, gives
+   the results of the theorem above: nil and the same receiver object, or the same error value.  No hypothesis. *)
+Theorem C01_source_compose_decryptStream_readHeader (c : crypto) (pm : bytes -> gval) (vd : validator) (kr : keyring)
+        (VV RING X : gval) (input : bytes) (s : Z) :
+  let r := run_func2 (ext_dhdr c vd kr) f_saltpack_decryptStream_readHeader [g_ds_new VV RING (g_mps_raw input s); VNil] in
+  match ext_nds c pm vd kr "decryptStream.readHeader" [g_ds_new VV RING (g_mps_raw input s); X] with
+  | Some [VNil; obj] => fst r = ORet [VNil] /\ lookup "ds" (snd r) = Some obj
+  | Some [ev; _] => fst r = ORet [ev]
+  | _ => fst r = OStuck "call"
+  end.
+Proof. exact (compose_decryptStream_readHeader c pm vd kr VV RING X input s). Qed.
+
+(* NewDecryptStream(vv, r, keyring) returns nds_outcome: the MessageKeyInfo, the chunk reader over the receiver object
+   readHeader left, nil; or (&ds.mki = pm input, nil, the header error).  Hypothesis: rdr_bytes r = Some input. *)
+Theorem C01_source_NewDecryptStream (c : crypto) (pm : bytes -> gval) (vd : validator) (kr : keyring) (VV r RING : gval)
+        (input : bytes) :
+  rdr_bytes r = Some input ->
+  fst (run_func2 (ext_nds c pm vd kr) f_saltpack_NewDecryptStream [VV; r; RING])
+  = nds_outcome c pm vd kr VV RING input.
+Proof. exact (go_NewDecryptStream c pm vd kr VV r RING input). Qed.
+
+(* the meaning ext_open (Open) gives to the call NewDecryptStream returns the MessageKeyInfo and the error of the
+   translated constructor (the reader it returns stands for the model's stream).  No hypothesis. *)
+Theorem C01_source_compose_NewDecryptStream (c : crypto) (pm : bytes -> gval) (vd : validator) (kr : keyring) (VV RING : gval)
+        (input : bytes) :
+  match ext_open c pm vd kr "NewDecryptStream" [VV; VBytes input; RING] with
+  | Some [mk; strm; e] => exists rdr, nds_outcome c pm vd kr VV RING input = ORet [mk; rdr; e]
+  | _ => nds_outcome c pm vd kr VV RING input = OStuck "call"
+  end.
+Proof. exact (compose_NewDecryptStream c pm vd kr VV RING input). Qed.
+
+(* Open(vv, ciphertext, keyring), the all-at-once entry point, returns open_outcome: the MessageKeyInfo and the
+   concatenated chunks when the stream ends cleanly, (nil, nil, err) when it ends with an error, and (&ds.mki, nil,
+   the constructor's error) otherwise.  No hypothesis. *)
+Theorem C01_source_Open (c : crypto) (pm : bytes -> gval) (vd : validator) (kr : keyring) (VV RING : gval) (input : bytes) :
+  fst (run_func2 (ext_open c pm vd kr) f_saltpack_Open [VV; VBytes input; RING])
+  = open_outcome c pm vd kr input.
+Proof. exact (go_Open c pm vd kr VV RING input). Qed.
+
+(* Open against the model: the class of what it returns is the model's open_all (the function C01_roundtrip and
+   C01_no_key are about).  Hypothesis: the outcome is not the stuck evaluator (the model says Unmodelled or a
+   panic). *)
+Theorem C01_source_open_outcome_model (c : crypto) (pm : bytes -> gval) (vd : validator) (kr : keyring) (input : bytes) :
+  open_outcome c pm vd kr input <> OStuck "call" ->
+  open_class (open_outcome c pm vd kr input) = open_all c vd kr input.
+Proof. exact (open_outcome_model c pm vd kr input). Qed.
+End C01_source_entry.
+
+Print Assumptions C01_source_computeMACKeySender.
+Print Assumptions C01_source_computeMACKeysSender.
+Print Assumptions C01_source_compose_computeMACKeysSender.
+Print Assumptions C01_source_view_enc_block_struct.
+Print Assumptions C01_source_readEncryptionBlock.
+Print Assumptions C01_source_compose_readEncryptionBlock.
+Print Assumptions C01_source_open_stream_header.
+Print Assumptions C01_source_decryptStream_readHeader.
+Print Assumptions C01_source_compose_decryptStream_readHeader.
+Print Assumptions C01_source_NewDecryptStream.
+Print Assumptions C01_source_compose_NewDecryptStream.
+Print Assumptions C01_source_Open.
+Print Assumptions C01_source_open_outcome_model.
 Print Assumptions C01_source_processHeader.
 Print Assumptions C01_source_checkEncryptReceivers.
 Print Assumptions C01_source_encryptBlock.
